@@ -230,7 +230,8 @@ def main(argv=None):
         if hasattr(fmod, "prepare"):
             fmod.prepare(params)
         st0 = time.time()
-        tot = runner.run_batch(fam, focus, params, seed, runs, args.jobs, deadline, chunk=getattr(fmod, "CHUNK", 25))
+        tot = runner.run_batch(fam, focus, params, seed, runs, args.jobs, deadline, chunk=getattr(fmod, "CHUNK", 25),
+                               per_chunk_timeout=getattr(fmod, "CHUNK_TIMEOUT", 900.0))
         tot["family"] = fam
         tot["wall"] = time.time() - st0
         totals.append(tot)
